@@ -184,7 +184,14 @@ func (t *ArrayType) IsAssignable(o px.Type, g px.Guard) bool {
 	case *ArrayType:
 		return t.size.IsAssignable(o.size, g) && GuardedIsAssignable(t.typ, o.typ, g)
 	case *TupleType:
-		return t.size.IsAssignable(o.givenOrActualSize, g) && allAssignableTo(o.types, t.typ, g)
+		if !t.size.IsAssignable(o.givenOrActualSize, g) {
+			return false
+		}
+		if len(o.types) == 0 {
+			// a tuple without types accepts elements of any type
+			return o.givenOrActualSize.max == 0 || GuardedIsAssignable(t.typ, anyTypeDefault, g)
+		}
+		return allAssignableTo(o.types, t.typ, g)
 	default:
 		return false
 	}
